@@ -38,7 +38,7 @@ ASSUMPTIONS = [
 ]
 FLOORS = {"schedules": (1500, 40000), "switching_schedules": (1000, 30000), "opcode_schedules": (300, 8000),
           "line_schedules": (300, 8000), "yield_points": (50000, 1000000), "lock_acquisitions": (2000, 50000), "focus_schedules": (1500, 15000)}
-COVER = {"scenarios": ["contexts-shared", "contexts-private", "inherit", "register-overloaded", "register-dataset", "evaluate-cached-unique", "evaluate-cached-equal"]}
+COVER = {"scenarios": ["contexts-shared", "contexts-private", "inherit", "register-overloaded", "register-dataset", "evaluate-cached-unique", "evaluate-cached-equal", "inspect-shared"]}
 SHARDS_QUICK = 4
 TIMEOUT_QUICK = 1200
 TIMEOUT_THOROUGH = 3600
@@ -85,7 +85,7 @@ def sc_contexts(rng, shared=True, n=2):
     R = rt.Runtime({T1: tagger("R")})
     plans = []
     for i in range(n):
-        k = rng.choice([0, 1, 2, 3])
+        k = rng.choice([0, 1, 2, 3, 4, 4])
         plans.append(k)
     obs = {i: [] for i in range(n)}
     exp = {i: [] for i in range(n)}
@@ -122,6 +122,22 @@ def sc_contexts(rng, shared=True, n=2):
                         s.op(me)
                         obs[i].append((ask(T0), ask(T1)))
                         exp[i].append((f"h{i}", "R" if shared else f"p{i}"))
+                if k >= 4:
+                    # short-lived derived runtimes, several deep and twice over, each with a library-derived block
+                    # (logging / cache switched off) inside: whatever the library keeps per runtime must not outlive it
+                    import contextlib
+
+                    import labrea.cache
+                    import labrea.logging
+
+                    for rnd in range(2):
+                        with contextlib.ExitStack() as st:
+                            for j in range(4):
+                                st.enter_context(rt.handle(T0, tagger(f"h{i}.{rnd}.{j}")))
+                                s.op(me)
+                                with (labrea.logging.disabled() if (j + rnd) % 2 == 0 else labrea.cache.disabled()):
+                                    obs[i].append((ask(T0), ask(T1)))
+                                    exp[i].append((f"h{i}.{rnd}.{j}", "R" if shared else f"p{i}"))
             s.op(me)
             obs[i].append((ask(T0), ask(T1)))
             exp[i].append(("default0", "TypeError"))
@@ -314,7 +330,56 @@ def sc_evaluate(rng, unique=True, n=2):
     return [fn_for(i) for i in range(n)], verify, {"unique": unique, "rounds": rounds, "small": small}
 
 
+def sc_inspect(rng, n=2):
+    """One shared (uncached) expression graph inspected and evaluated from several threads, each with its own
+    dictionary: every answer - evaluate, keys, explain, validate - is the one a lone caller gets for that dictionary."""
+    import labrea.functions as F
+    from labrea import Template, case, coalesce, switch
+
+    def above(x, limit):
+        return x > limit
+
+    branchy = (case(Option("A", 0))
+               .when(F.partial(above, limit=Option("HIGH", 10)), Option("B", "high"))
+               .when(F.partial(above, limit=Option("LOW", 1)), Template("mid-{C}"))
+               .otherwise(Option("E", "low")))
+    shared = coalesce(switch(Option("D", "x"), {"x": branchy, "y": Option("S.X")}), Option("T.X", "fallback"))
+    # per thread a dictionary that selects another branch after consulting another number of conditions
+    own = [{"A": 20, "B": "b", "HIGH": 15, "LOW": 2}, {"A": 5, "C": "c", "LOW": 2, "HIGH": 15}, {"A": 0, "LOW": 3, "HIGH": 4}]
+    other = [{"D": "y", "S": {"X": 1}}, {"D": "y"}, {"A": 5, "LOW": 2}, {"A": 12, "HIGH": 11, "D": "x"}, {}]
+    ops = ["keys", "explain", "explain", "keys", "evaluate", "validate"]
+    rounds = rng.choice([1, 2])
+    plan = {i: [(rng.choice(ops[:4] if r == 0 else ops), own[i % 3] if r == 0 or rng.random() < 0.5 else rng.choice(other)) for r in range(rounds)] for i in range(n)}
+    got = {i: [] for i in range(n)}
+
+    def outcome(op, o):
+        try:
+            v = getattr(shared, op)(dict(o))
+            return ("ok", sorted(v) if isinstance(v, (set, frozenset)) else v)
+        except Exception as e:  # noqa: BLE001
+            return ("err", type(e).__name__, getattr(e, "key", None))
+
+    def fn_for(i):
+        def fn(s, me):
+            for op, o in plan[i]:
+                s.op(me)
+                got[i].append((op, o, outcome(op, o)))
+
+        return fn
+
+    def verify():
+        for i in range(n):
+            for op, o, v in got[i]:
+                alone = outcome(op, o)
+                if v != alone:
+                    return f"thread {i} called {op}({o}) on the shared expression and got {v!r}; a lone caller gets {alone!r}"
+        return None
+
+    return [fn_for(i) for i in range(n)], verify, {"rounds": rounds, "plan": {str(k): v for k, v in plan.items()}}
+
+
 SCENARIOS = {
+    "inspect-shared": lambda r: sc_inspect(r, r.choice([2, 2, 3])),
     "contexts-shared": lambda r: sc_contexts(r, True, r.choice([2, 2, 3])),
     "contexts-private": lambda r: sc_contexts(r, False, 2),
     "inherit": sc_inherit,
@@ -332,6 +397,7 @@ def cleanup(threads):
 
 
 FOCUS = {  # focus mode: yield points only in the file that owns the shared state of the scenario
+    "inspect-shared": ("conditional.py",),
     "evaluate-cached-unique": ("cache.py",), "evaluate-cached-equal": ("cache.py",),
     "register-overloaded": ("overload.py",), "register-dataset": ("overload.py", "dataset.py"),
     "contexts-shared": ("runtime.py",), "contexts-private": ("runtime.py",), "inherit": ("runtime.py",),
